@@ -301,6 +301,17 @@ _add_clear_ops()
 _add_flag_ops()
 
 
+def prune_noop_flags(hist, alphabet, initially_uncached=()):
+    """Drop is_cached assignments that cannot change anything in the state reached by hist (the flag already
+    has that value according to the flag assignments made so far)."""
+    unc = set(initially_uncached)
+    for op in hist:
+        if op["op"] == "set_cached":
+            (unc.discard if op["v"] else unc.add)((op["sp"], op["c"]))
+    return [op for op in alphabet
+            if not (op["op"] == "set_cached" and (((op["sp"], op["c"]) in unc) != op["v"]))]
+
+
 def root_names(tier):
     return list(ROOTS)
 
